@@ -48,6 +48,13 @@ type Knobs struct {
 	SnapAudit   bool
 	NoAutoCompactionsPct int
 	MaskFilterDiff bool // C09: differential run with/without block-property mask
+	TinyCaches    bool // C04: file cache of 1-2 handles, zero block cache
+	MaintHeavy    bool
+	IngestHeavy   bool
+	EFOSHeavy     bool
+	LightAudit    bool // C15: per-step audit = structural checks only (full audit every 10th)
+	VersionWalk   bool // C15: independent version + table content walkers
+	ForceValueSep bool
 }
 
 // Config is the drawn DB configuration; recorded in replays.
@@ -103,9 +110,16 @@ func drawConfig(rng *rand.Rand, k Knobs) Config {
 		IngestSplit:           rng.IntN(2) == 0,
 		DeleteOnlyExcise:      rng.IntN(2) == 0,
 	}
-	if k.ValueSep && rng.IntN(3) != 0 {
+	if k.ValueSep && (k.ForceValueSep || rng.IntN(3) != 0) {
 		c.ValueSep = true
 		c.ValSepMin = pick(rng, 1, 3, 8, 24, 64)
+	}
+	if k.ValueSep && c.FMV < int(pebble.FormatValueSeparation) && k.ForceValueSep {
+		c.FMV = int(pebble.FormatValueSeparation) + rng.IntN(int(pebble.FormatNewest-pebble.FormatValueSeparation)+1)
+	}
+	if k.TinyCaches {
+		c.CacheSize = 1
+		c.FileCacheSize = 1 + rng.IntN(2)
 	}
 	return c
 }
@@ -162,9 +176,6 @@ func MakeOptions(c Config, fs vfs.FS, ev *Events) *pebble.Options {
 		Logger:                      quietLogger{},
 		DebugCheck:                  pebble.DebugCheckLevels,
 		BlockPropertyCollectors:     []func() pebble.BlockPropertyCollector{sstable.NewTestKeysBlockPropertyCollector},
-	}
-	if c.FileCacheSize > 0 {
-		o.MaxOpenFiles = 0
 	}
 	o.CacheSize = c.CacheSize
 	mc := c.MaxConcurrent
@@ -231,6 +242,7 @@ type iterObj struct {
 	m      *model.Iter
 	desc   string
 	batch  *batchObj // non-nil for batch iterators
+	base   *model.State // batch iterators: committed state pinned at creation
 	born   int
 	frozen bool // long-lived: created before later writes
 	excisedSpans [][2]string // spans excised after creation (documented exception for nothing here; kept for snapshots)
@@ -286,6 +298,8 @@ type Run struct {
 	nontrivial bool
 	sawShadow  bool
 	ingestN int
+	fileCache *pebble.FileCache
+	seenTables map[uint64]bool
 	Stats map[string]int64
 }
 
@@ -710,7 +724,16 @@ func pstr(p model.Pos, ok bool) string {
 // scanCompare walks a fresh iterator forward and backward and compares with the
 // model iterator's position list.
 func (r *Run) scanCompare(what, class string, newIter func(o *pebble.IterOptions) (*pebble.Iterator, error), st *model.State, mo model.IterOpts) {
-	po := r.toPebbleOpts(mo, false)
+	r.scanCompare1(what, class, newIter, st, mo, false)
+	if r.K.MaskFilterDiff && mo.MaskSuffix != "" && !r.failed {
+		// differential run: the block-property filter mask must not change results
+		r.scanCompare1(what+"+filter-mask", class, newIter, st, mo, true)
+		r.count("masked_scans_with_and_without_filter", 1)
+	}
+}
+
+func (r *Run) scanCompare1(what, class string, newIter func(o *pebble.IterOptions) (*pebble.Iterator, error), st *model.State, mo model.IterOpts, useFilter bool) {
+	po := r.toPebbleOpts(mo, useFilter)
 	it, err := newIter(po)
 	if err != nil {
 		r.fail(class, "%s: NewIter error %v", what, err)
@@ -827,6 +850,20 @@ func (r *Run) audit(why string) {
 	if r.failed {
 		return
 	}
+	if r.K.VersionWalk {
+		r.versionWalk(why)
+		if r.failed {
+			return
+		}
+	}
+	if r.K.LightAudit && r.step%10 != 0 && why == "periodic" {
+		if err := r.db.CheckLevels(nil); err != nil {
+			r.fail("check-levels", "CheckLevels(%s): %v", why, err)
+		}
+		r.count("structural_audits", 1)
+		r.noteShape()
+		return
+	}
 	r.count("audits", 1)
 	r.checkGets("latest("+why+")", "get-mismatch", dbGet(r.db), r.M, nil)
 	if r.failed {
@@ -842,6 +879,11 @@ func (r *Run) audit(why string) {
 	}
 	if r.K.RangeKeys && r.rng.IntN(2) == 0 {
 		r.scanCompare("latest-ranges("+why+")", "scan-mismatch", r.db.NewIter, r.M, model.IterOpts{KeyTypes: model.RangesOnly})
+	}
+	if r.K.Masking && r.K.RangeKeys && !r.failed {
+		mo := model.IterOpts{KeyTypes: model.PointsAndRanges, MaskSuffix: fmt.Sprintf("@%d", 1+r.rng.IntN(r.Cfg.MaxSuffix+1))}
+		r.scanCompare("latest-masked("+why+")", "masking-mismatch", r.db.NewIter, r.M, mo)
+		r.count("masked_scans", 1)
 	}
 	if r.K.SnapAudit {
 		for _, s := range r.snaps {
